@@ -256,7 +256,10 @@ def run_failure(args):
     old, new, line_idx, fault, session = args
     viols = []
     # '<session>-noproc': the running configuration has no helper program, the refused file defines one
+    # '<session>-norib': the refused file turns adj-rib-out off for the running neighbor and adds a second neighbor
+    # (so that faults further down the file come after the first neighbor was parsed completely)
     noproc = session.endswith('-noproc')
+    norib = session.endswith('-norib')
     session = session.split('-')[0]
     with World(without_processes(config(old)) if noproc else config(old)) as wd:
         env = Env(wd, hold=30, script=[], config_name='active')
@@ -273,7 +276,7 @@ def run_failure(args):
             wd.cfg._text = False
             wd.cfg._configurations[:] = ['/nonexistent/verif/exabgp.conf']
         else:
-            lines = config(new).split('\n')
+            lines = (config(new, norib=True, extra=SECOND) if norib else config(new)).split('\n')
             body_idx = [i for i, l in enumerate(lines) if l.strip()]
             if line_idx >= len(body_idx):
                 return [], ('skip',), 0
@@ -393,6 +396,12 @@ def plan(tier):
                     fail.append((old, new, li, fault, sess))
         for sess in ('up', 'down'):
             fail.append((old, new, 0, 'missing-file', sess))
+        # the refused file turns adj-rib-out off and has a second neighbor: faults in the lines of that second neighbor
+        nl2 = len([l for l in config(new, norib=True, extra=SECOND).split('\n') if l.strip()])
+        for li in range(nlines - 1, nl2):
+            for fault in FAULTS:
+                for sess in ('up-norib', 'down-norib'):
+                    fail.append((old, new, li, fault, sess))
         # the running configuration without any helper program, the refused file with one: every third line
         for li in range(0, nlines, 3 if tier == 'quick' else 1):
             for fault in FAULTS:
